@@ -616,8 +616,11 @@ pub fn quantile_invariants(q: &Quantile, p: f64, n: usize, run_min: f64, run_max
         return Ok(());
     }
     if !(est >= run_min && est <= run_max) {
+        // known finding K2: below five observations the estimate is 0.5*a + 0.5*b; for subnormal
+        // a, b each half is rounded, so the result can miss [a, b] by a unit of 2^-1074
+        let subnormal_small = n < 5 && run_min.abs().max(run_max.abs()) < f64::MIN_POSITIVE;
         return Err(Viol::new(
-            "Quantile:outside_data_range",
+            if subnormal_small { "Quantile:outside_data_range:subnormal_small_sample" } else { "Quantile:outside_data_range" },
             format!("after op {} ({} observations): quantile() = {:e} outside [{:e}, {:e}]", oi, n, est, run_min, run_max),
         ));
     }
@@ -733,6 +736,7 @@ impl DScenario {
         };
         let off = if rng.below(2) == 0 || extreme { 0.0 } else { scale * 10f64.powi(rng.below(10) as i32) };
         let sign = if rng.chance(0.5) { 1.0 } else { -1.0 };
+        let subnormal = extreme && rng.chance(0.3);
         let trend = rng.normal() * 0.1;
         let data: Vec<f64> = (0..len)
             .map(|i| {
@@ -771,6 +775,12 @@ impl DScenario {
                 // kind 8 keeps the sign of zero (0.0 + -0.0 would lose it)
                 let v = if kind == 8 {
                     z
+                } else if extreme && subnormal {
+                    // deep subnormals: k * 2^-1074 with small k
+                    sign * f64::from_bits(1 + (z.abs() * 1000.0) as u64 % 5000)
+                } else if extreme && scale > 1e300 && rng.below(12) == 0 {
+                    // the largest finite value itself
+                    sign * f64::MAX
                 } else if extreme {
                     sign * (scale * z.abs().min(1.49))
                 } else {
@@ -848,6 +858,15 @@ impl DScenario {
             refresh(&mut t);
             return t;
         }
+        if matches!(self.prop, DProp::C05 | DProp::C15) && index == 3 {
+            // one run per batch: a single estimator that sees more than 2^20 observations
+            let len = (1usize << 20) + 200;
+            let p = [0.5, 0.9, 0.25][(seed % 3) as usize];
+            let ops: Vec<DOp> = (0..len).map(|_| DOp::Add((rng.f() * 100.0).to_bits(), 0)).collect();
+            let mut t = DTrace { scenario: self.name().to_string(), ty: "Quantile".into(), via_default: false, p: (p as f64).to_bits(), hist_len: 0, edges: vec![], ops, readable: vec![] };
+            refresh(&mut t);
+            return t;
+        }
         let ty = match self.prop {
             DProp::C05 | DProp::C15 => "Quantile",
             DProp::C18 => TYPES[rng.usize(TYPES.len())],
@@ -855,14 +874,14 @@ impl DScenario {
         let mut t = DTrace { scenario: self.name().to_string(), ty: ty.to_string(), via_default: false, p: 0, hist_len: 0, edges: vec![], ops: vec![], readable: vec![] };
         match ty {
             "Quantile" => {
-                let (p, data) = Self::gen_quantile_stream(&mut rng, tier, self.prop == DProp::C15);
+                let (p, data) = Self::gen_quantile_stream(&mut rng, tier, matches!(self.prop, DProp::C15 | DProp::C05));
                 t.p = p.to_bits();
                 t.via_default = p == 0.5 && rng.chance(0.5);
                 let ops: Vec<DOp> = data.iter().map(|x| DOp::Add(x.to_bits(), 0)).collect();
                 t.ops = Self::add_faults(&mut rng, ops);
             }
             "Histogram" => {
-                let len = [1usize, 2, 3, 4, 10, 100][rng.usize(6)];
+                let len = [1usize, 2, 3, 4, 7, 8, 10, 64, 100, 256][rng.usize(10)];
                 let lo = (rng.f() - 0.5) * 10.0;
                 let mut e: Vec<f64> = (0..=len).map(|_| ((rng.f() * 8.0) * 4.0).round() / 4.0 + lo.round()).collect();
                 e.sort_by(|a, b| a.partial_cmp(b).unwrap());
